@@ -359,5 +359,13 @@ theorem C12_emitted (env : Env) (t : Tables) (rec : Rec) (ctx : Ctx) (schema doc
     | exact hLogical_specs _ _ _ _ _ _ _ _ _ _ _ _ (by decide) (by decide) (errsOnly_specs h)
     | exact hCheckWith_specs _ _ _ _ (errsOnly_specs h)
     | (simp [raisePy] at h; done)
+    | (simp only [] at h
+       split at h
+       · simp only [Except.ok.injEq] at h; subst h
+         intro sp hsp
+         obtain ⟨m, _, hm⟩ := List.mem_map.mp hsp
+         subst hm
+         exact ⟨by simp [customSpec, emittedPairs, Code.CUSTOM], fun hk => absurd rfl hk⟩
+       · simp [raisePy] at h)
 
 end Cerberus
